@@ -22,9 +22,42 @@ func ObjectToJSON(object interface{}) (string, error) {
 func JSONMarshal(v interface{}, unescape bool) ([]byte, error) {
 	b, err := json.MarshalIndent(v, "", "  ")
 	if unescape {
-		b = bytes.Replace(b, []byte("\\u003c"), []byte("<"), -1)
-		b = bytes.Replace(b, []byte("\\u003e"), []byte(">"), -1)
-		b = bytes.Replace(b, []byte("\\u0026"), []byte("&"), -1)
+		b = unescapeHTMLChars(b)
 	}
 	return b, err
+}
+
+// unescapeHTMLChars replaces the \u003c, \u003e and \u0026 escapes of encoding/json by <, > and &.
+// Escape sequences are consumed one by one, so an escaped backslash followed by the text
+// u003c (a value that contains the six characters \u003c) is left as it is.
+func unescapeHTMLChars(b []byte) []byte {
+	if !bytes.Contains(b, []byte("\\u00")) {
+		return b
+	}
+	out := make([]byte, 0, len(b))
+	for i := 0; i < len(b); i++ {
+		if b[i] != '\\' || i+1 >= len(b) {
+			out = append(out, b[i])
+			continue
+		}
+		if b[i+1] == 'u' && i+6 <= len(b) {
+			switch string(b[i+2 : i+6]) {
+			case "003c":
+				out = append(out, '<')
+				i += 5
+				continue
+			case "003e":
+				out = append(out, '>')
+				i += 5
+				continue
+			case "0026":
+				out = append(out, '&')
+				i += 5
+				continue
+			}
+		}
+		out = append(out, b[i], b[i+1])
+		i++
+	}
+	return out
 }
